@@ -32,7 +32,16 @@ def user_calls(effects):
 
 
 def calls(effects, fn_suffix):
-    return [e for e in effects if e.kind == 'call' and e.fn.endswith(fn_suffix)]
+    out = [e for e in effects if e.kind == 'call' and e.fn.endswith(fn_suffix)]
+    if not out:
+        # a clause that counts calls of a contracted function cannot be evaluated once that function was renamed or removed
+        # (its work is then inlined, not a call effect): undecided, not "zero calls"
+        from pyvc.contract import MISSING_FUNCTIONS
+        from pyvc.values import Unsupported
+        short = fn_suffix.split('.')[-1]
+        if short in MISSING_FUNCTIONS:
+            raise Unsupported(f'a clause refers to calls of {short}, which no longer exists in this tree (renamed or removed)')
+    return out
 
 
 def kwargs_equal(it, eff, expected):
